@@ -69,7 +69,10 @@ func (c *Ctx) Rule(name, text string, floor int) {
 
 func (c *Ctx) add(st Status, key string, pos token.Pos, format string, args ...any) {
 	if c.curRule == "" {
-		panic("obligation reported outside a rule")
+		// a shared model (opcode table, bytecode shape) is built before the first rule of a
+		// property is declared; what it cannot resolve is reported under a rule of its own
+		c.Rule("R-MODEL", "the tables and code shapes that the rules of this property are evaluated on (opcode constants, the interpreter's switch, the writer's emit calls, the backtrack-count table) can be extracted from the source: when one of them has been rewritten into a form the extraction does not understand, nothing that depends on it is decided and the check fails", 0)
+		defer func() { c.curRule = "" }()
 	}
 	o := Obligation{Rule: c.curRule, Key: key, Status: st, Detail: fmt.Sprintf(format, args...), Config: c.P.Cfg.Name}
 	if pos.IsValid() {
